@@ -381,7 +381,8 @@ func (br *v2reader) Sum() []byte {
 
 func getHeaderFromFirstChunk(data []byte) ([]byte, []byte, bool) {
 	if uint64(len(data)) < HeaderSize {
-		panic("first chunk is too small")
+		// a first chunk that was cut short is rejected like any other invalid chunk
+		return nil, nil, false
 	}
 	sz := binary.LittleEndian.Uint64(data)
 	if sz > HeaderSize-8 {
